@@ -75,7 +75,10 @@ func (c *Compiler) Reset() {
 	c.symbolTable = NewGlobalSymbolTable()
 	c.labelCounter = 0
 	c.loopStack = nil
-	// Keep the optimizer with its current settings
+	// Keep the optimization level but not the optimizer's accumulated facts:
+	// constants, copies and expressions learnt while compiling one route must
+	// not be applied to the next one compiled by the same Compiler.
+	c.optimizer = NewOptimizer(c.optimizer.level)
 }
 
 // Compile compiles an AST module to bytecode
